@@ -11,7 +11,11 @@ Rendezvous (order-free; the statement does not fix an order among several ready 
   * when a top-level operation returns, no declared waiter whose components are all
     registered may still be pending ("immediately once they are");
   * nothing escapes from register / call_when_ready / listen_to_dependencies because a
-    callback failed (checked by the harness: an exception out of a core call).
+    callback failed (checked by the harness: an exception out of a core call);
+  * a sink's dependency set is computed per listen_to_dependencies call (sink_deps); the
+    object the caller passed as `components` belongs to the caller and is not changed by
+    the call (checked by the harness), so a collection reused for a second sink names the
+    same components there.
 Life-cycle:
   * GoingUp once, raised by goUp; Up exactly once, after GoingUp, never while a deferral
     that has been taken is still unreleased; once goUp has returned and no deferral is
@@ -55,6 +59,16 @@ class Model (object):
     self.declared[wid] = deps
     self.pending[wid] = deps
     if silent: self.silent.add(wid)
+
+  @staticmethod
+  def sink_deps (explicit, handler_components):
+    """Components a dependency-driven sink names in ONE listen_to_dependencies call: the value
+    of the explicit `components` argument at call time (None, one name, or any collection of
+    names) plus the component part of each of its _handle_<component>_<Event> methods."""
+    if explicit is None: names = set()
+    elif isinstance(explicit, str): names = set([explicit])
+    else: names = set(explicit)
+    return frozenset(names) | frozenset(handler_components)
 
   def invoked (self, wid, registry):
     """A waiter ran; registry = names registered on the real core at that instant."""
